@@ -60,12 +60,15 @@ def loopstream(nq, nt, faults=60):
 
 RULE_LOOP = "closed loop: the real Drummer DB and the real scheduler against a simulated fleet (Go transliteration of the fleet half of the Lean loop model, compared with the Lean step after every event): fleets of size+1..7 NodeHosts, 1..6 shards of size 3 or 5; launch, then 5..64 (quick) faulty rounds (per host and round: crash for 1..3 rounds 4%, crash for 6..30 rounds 3%, report lost 10%, reply lost 10%, requests not executed 20%, replicas lagging / catching up), then all hosts up and fault-free round-fair rounds (4 ticks, every host reports / executes / catches up in random order, one scheduling round); oracles: healed within 12 rounds and stays healed (C01), request stream dry within 8 more rounds (C11), membership size and co-location after every round (C02), every scheduling decision by the scheduler oracles (C02, C11, C12); evaluations = events; non-trivial = sequences"
 
+# the scripted scenario of the agent harness on real NodeHosts: the execute step that the loop model assumes
+AGENT_SCENARIO = {"cmd": "agent", "driver": "AgentDriver", "sections": None, "eval_re": r"^case:", "timeout": 1500,
+                  "args": {"quick": ["-reports", "0", "-dispatch", "0"], "thorough": ["-reports", "0", "-dispatch", "4"]}}
+
 CHECKS = {
     "C01": {
         "lean": ["DrummerVerif.Props.C01"],
         "streams": [loopstream(25, 600),
-                    {"cmd": "agent", "driver": "AgentDriver", "sections": None, "eval_re": r"^case:", "timeout": 1500,
-                     "args": {"quick": ["-reports", "0", "-dispatch", "0"], "thorough": ["-reports", "0", "-dispatch", "4"]}}],
+                    AGENT_SCENARIO],
         "rule": RULE_LOOP + " | execute step on real NodeHosts (agent harness, scenario part): every row of the launch / join / restore table the scheduler can produce (launch on a fresh host, join without data, join again after a restart with data, restore with data, restore without data), fenced add / delete, kill, compared with the model's table `instantiate` that the fleet half of the loop model follows (theorem fleet_model_follows_agent_table)",
         "assumptions": DB_ASSUME + ["the fleet half of the loop model (how NodeHosts execute requests: dragonboat's ordered config change, start / join / restore rules, data kept across restarts, a removed replica that learns of its removal stops) is an assumption, exercised against real NodeHosts by the agent harness (C18)"],
     },
@@ -147,8 +150,7 @@ CHECKS = {
     "C02": {
         "lean": ["DrummerVerif.Props.C02"],
         "streams": [schedstream("repair", 400, 6000, ["maintain"]), schedstream("general", 100, 1500, ["maintain"]), loopstream(12, 300),
-                    {"cmd": "agent", "driver": "AgentDriver", "sections": None, "eval_re": r"^case:", "timeout": 1500,
-                     "args": {"quick": ["-reports", "0", "-dispatch", "0"], "thorough": ["-reports", "0", "-dispatch", "4"]}}],
+                    AGENT_SCENARIO],
         "rule": RULE_SCHED + " | " + RULE_LOOP + " | execute step on real NodeHosts (agent harness, scenario part): membership changes fenced by the version on launched, joined and restored replicas", "assumptions": DB_ASSUME + ["fleet half of the loop model (dragonboat's ordered config change, start/restart rules) is an assumption validated by the agent harness"],
     },
     "C13": {
@@ -185,7 +187,7 @@ CHECKS = {
     "C11": {
         "lean": ["DrummerVerif.Props.C11"],
         "streams": [dbstream("c11", 250, 4000, ["res", "img", "kill"]), dbstream("general", 150, 2000, ["res", "img", "kill"]),
-                    schedstream("general", 150, 2000, ["maintain"]), loopstream(12, 300)],
+                    schedstream("general", 150, 2000, ["maintain"]), loopstream(12, 300), AGENT_SCENARIO],
         "rule": RULE_DB % "c11 (every second report of a non-member host carries a stray replica) and general",
         "assumptions": DB_ASSUME,
     },
